@@ -8,12 +8,12 @@
 //!    on both sides;
 //!  * every `get` returns the value of the last published update of that key — a discarded loan
 //!    (also one that was scribbled on) leaves the value unchanged; `is_up_to_date` is exact.
-use crate::payload::{Payload, V8a8, V64a64, V65a1};
+use crate::payload::{Payload, V8a8, V64a8, V65a1};
 use checks_ice::domain::Domain;
 use iceoryx2::port::reader::{BlackboardValue, EntryHandle, EntryHandleError, Reader, ReaderCreateError};
 use iceoryx2::port::writer::{EntryHandleMut, EntryHandleMutError, Writer, WriterCreateError};
 use iceoryx2::prelude::*;
-use iceoryx2::service::port_factory::blackboard::PortFactory;
+use iceoryx2::service::port_factory::blackboard::PortFactory as BbFactory;
 use proptest::prelude::*;
 use serde::{Deserialize, Serialize};
 use vcore::util::idx;
@@ -66,7 +66,7 @@ pub fn strategy(max_ops: usize) -> impl Strategy<Value = SeqCase> {
 
 type A = V8a8;
 type B = V65a1;
-type C = V64a64;
+type C = V64a8;
 
 enum WH<S: Service> {
     A(EntryHandleMut<S, u64, A>),
@@ -115,7 +115,7 @@ fn read<S: Service, T: Payload>(h: &EntryHandle<S, u64, T>, key: u8, expect: u64
     Ok(v)
 }
 
-fn pick<'a, S: Service>(first: &'a PortFactory<S, u64>, second: &'a Option<PortFactory<S, u64>>, sec: bool) -> &'a PortFactory<S, u64> {
+fn pick<'a, S: Service>(first: &'a BbFactory<S, u64>, second: &'a Option<BbFactory<S, u64>>, sec: bool) -> &'a BbFactory<S, u64> {
     match (second, sec) {
         (Some(s), true) => s,
         _ => first,
@@ -134,7 +134,7 @@ fn run_in<S: Service>(c: &SeqCase, obs: &mut Obs, domain: &Domain) -> Result<(),
     let node = NodeBuilder::new().config(&domain.config).create::<S>().map_err(|e| setup("node", format!("{e:?}")))?;
     let node2 = NodeBuilder::new().config(&domain.config).create::<S>().map_err(|e| setup("node", format!("{e:?}")))?;
     let name = ServiceName::new("c12seq").unwrap();
-    let first: PortFactory<S, u64> = node
+    let first: BbFactory<S, u64> = node
         .service_builder(&name)
         .blackboard_creator::<u64>()
         .max_readers(c.max_readers)
@@ -145,7 +145,7 @@ fn run_in<S: Service>(c: &SeqCase, obs: &mut Obs, domain: &Domain) -> Result<(),
         .map_err(|e| setup("blackboard", format!("{e:?}")))?;
     let max_readers = first.static_config().max_readers();
     ensure!(max_readers == c.max_readers.max(1), "seq.max_readers_clamp", "max_readers({}) reads back as {max_readers}", c.max_readers);
-    let mut second: Option<PortFactory<S, u64>> = None;
+    let mut second: Option<BbFactory<S, u64>> = None;
     let mut writer: Option<Writer<S, u64>> = None;
     let mut whandles: Vec<(WH<S>, u8)> = vec![];
     let mut readers: Vec<Reader<S, u64>> = vec![];
